@@ -23,6 +23,8 @@ def status(d):
         return 'missed first, caught after the model was extended'
     if 'NOT DECIDED' in cr.get('how', ''):
         return '**not decided** (residue, see below)'
+    if cr.get('no_follow_up') and cr.get('caught_by_other_check'):
+        return "missed by the property's own check, caught by the check of " + cr['caught_by_other_check'].split(' ')[0] + ('/C02' if 'C02 (' in cr['caught_by_other_check'] else '')
     if cr.get('no_follow_up'):
         return '**missed**, not followed up (end of the time budget; see below)'
     return '**missed** (follow-up pending)'
@@ -47,9 +49,10 @@ def main():
     nd = count.get('**not decided** (residue, see below)', 0)
     pend = count.get('**missed** (follow-up pending)', 0)
     nofu = count.get('**missed**, not followed up (end of the time budget; see below)', 0)
+    oth = sum(v for k, v in count.items() if k.startswith("missed by the property's own check"))
     totals = ('Totals: %d seeded changes; %d caught; %d missed (or left undecided) first, caught after the model was extended; '
               '%d **not decided** (residue, see below)%s%s.' % (n, caught, ext, nd, '; %d missed, follow-up pending' % pend if pend else '',
-                                                                  '; %d missed in the last round and not followed up' % nofu if nofu else ''))
+                                                                  ('; %d missed by their own check but caught by a neighbouring one' % oth if oth else '') + ('; %d missed in the last round and not followed up' % nofu if nofu else '')))
     path = os.path.join(ROOT, 'DESIGN.md')
     s = open(path).read()
     head = '| seed | property | change (summary) | needs | quick tier |\n|------|----------|------------------|-------|-----------|\n'
